@@ -321,7 +321,8 @@ class Plane:
             # (rebind rather than subtract in place: the OPD array may be the caller's
             # own array, shared with other planes)
             plane.opd = np.where(inside, opd - opd_tilt.reshape(opd.shape), plane.opd)
-            plane.tilt.append(Tilt(x=t[1], y=t[2]))
+            # (likewise a new list: a shallow copy of the plane shares the list)
+            plane.tilt = plane.tilt + [Tilt(x=t[1], y=t[2])]
 
         else:
             t = np.empty((self.size, 3))
@@ -338,7 +339,7 @@ class Plane:
             # closely packed, antialiased segments) must not be counted several times
             nseg = np.sum(self.mask != 0, axis=0)
             plane.opd = np.sum(opd_no_tilt, axis=0) / np.maximum(nseg, 1)
-            plane.tilt.extend([Tilt(x=t[seg, 1], y=t[seg, 2]) for seg in range(self.size)])
+            plane.tilt = plane.tilt + [Tilt(x=t[seg, 1], y=t[seg, 2]) for seg in range(self.size)]
 
         return plane
 
